@@ -194,7 +194,17 @@ def run_case(case: dict) -> list[tuple[str, str]]:
             again = DR.frames_to_bytes(gser.stream_frames(DR.g_stream(cls, opts), sink), True)
         else:
             import rdflib  # noqa: PLC0415
+            from pyjelly.integrations.rdflib import parse as rp  # noqa: PLC0415
 
+            # graphs/datasets yielded by the grouped parser (the one holding the declaration
+            # rows must carry the bindings)
+            have_grouped: set = set()
+            for gg in rp.parse_jelly_grouped(io.BytesIO(on)):
+                have_grouped |= {(p, str(u)) for p, u in gg.namespaces()}
+            missing = [b for b in user if b not in have_grouped]
+            if missing:
+                fails.append(("grouped-namespaces", f"graphs yielded by the grouped parser lack "
+                                                    f"bindings {missing}"))
             g = rdflib.Graph() if cls == "triple" else rdflib.Dataset()
             list(g.namespaces())  # rdflib binds its defaults lazily: do it before parsing
             g.parse(io.BytesIO(on), format="jelly")
